@@ -70,6 +70,7 @@ def _class_names():
     if not _CLS:
         for c in repo.all_classes():
             _CLS.setdefault(c.__name__, c)
+        _CLS['WlArg'] = repo.resolve('core.wl.arg.Arg')
     return _CLS
 
 
@@ -135,7 +136,7 @@ def check_call(c, fn, args, kwargs=None):
             return 'skip'
     # evaluate old(...) and the `when` conditions in the pre-state
     ens = []
-    for name, text in c.ensures_l:
+    for name, text in list(c.ensures_l) + list(getattr(c, 'native_ensures_l', [])):
         code, olds = _compile(text)
         oldvals = {}
         for i, o in enumerate(olds):
